@@ -168,6 +168,28 @@ func (c *Ctx) ruleDisabled(rule string) {
 			if !requiredAsked || !rejects {
 				continue
 			}
+			// no accepting return goes round the test: each lies behind the loop's exit
+			if ei := core.ErrorResultIndex(fn.Signature); ei >= 0 {
+				k2 := key(rule, c.M.Key(fn), "no accepting return goes round the presence test of the required properties")
+				exit := l.exitBlock()
+				bad := ""
+				nAcc := 0
+				for _, r := range core.ReturnsOf(fn) {
+					if !core.IsNilConst(core.RetVal(r, ei)) {
+						continue
+					}
+					nAcc++
+					if exit == nil || !(exit == r.Block() || exit.Dominates(r.Block())) {
+						bad = c.M.InstrPos(r)
+					}
+				}
+				if bad == "" {
+					c.R.Ok(rule, k2, c.M.Pos(l.pos), "presence test for the consumer's required properties", sprintf("%d accepting return(s), each behind the exit of the loop over the required properties", nAcc))
+				} else {
+					c.R.Bad(rule, k2, bad, "the object comparison can accept without having looked for the consumer's required properties",
+						"this return is reached without the loop that refuses a producer lacking a required property - or declaring it but never supplying it (disabled): an early exit \"as many fields as properties, so none is missing\" counts keys, and the rule is not about keys")
+				}
+			}
 			k := key(rule, c.M.Key(fn), "a required property is not counted as supplied by a producer that has it disabled")
 			if flagRead != nil {
 				c.R.Ok(rule, k, c.M.InstrPos(flagRead), "presence test for the consumer's required properties (schema mode)", "the loop branches on the Disabled flag of the producer's property")
